@@ -256,19 +256,19 @@ def check_kernels(ctx, rng, n, stats, open_f):
         stats["hist"][op] = stats["hist"].get(op, 0) + 1
         if a == "panic":
             stats["kernel_panics"] += 1
-            if merge_panic_is_known(l) and m == "panic":
-                f = open_f.get(overflow_finding(open_f))
-                if f:
-                    known_once(ctx, f, f"`{l}` aborts the dev-profile compiler (model predicts it: merge_total_counterexample)")
-                    continue
+            f = open_f.get(overflow_finding(open_f)) if merge_panic_is_known(l) else None
+            if f:
+                known_once(ctx, f, f"`{l}` aborts the dev-profile compiler")
+                continue
             ctx.violation(f"compile-time arithmetic kernel aborts on 32-bit operands: `{l}` (model: {m})",
                           {"protocol": "kernel", "line": l, "impl": a, "model": m})
             if len(ctx.violations) > 3:
                 return
-        elif a != m:
+        elif op != "merge" and a != m:
+            # `merge` lines are not diffed: the constant merger's model is C02's (Lemmas/C03Opt.lean)
             ctx.violation(f"model/implementation disagreement on kernel line `{l}`: impl `{a}` model `{m}`",
                           {"protocol": "kernel", "line": l, "impl": a, "model": m,
-                           "broken": "correspondence fold/merge/trip (Model/OptKernel.lean vs samlang-optimization): fold_total / trip_total / merge_total_partial no longer speak about this code"},
+                           "broken": "correspondence fold/trip (Model/OptKernel.lean vs samlang-optimization): fold_total / trip_total no longer speak about this code"},
                           no_input=True)
             return
 
@@ -349,11 +349,24 @@ class MatchGen:
         n = rng.range(2, 4)
         for t in range(1, n + 1):
             if rng.chance(3, 5) or t == 1:
-                nv = rng.range(2, 4)
+                ptr_types = [u for u in range(1, t) if self.defs[u][0] in ("S", "E")]
+                if ptr_types and rng.chance(1, 3):
+                    # option-like: payload-free variants and exactly one variant with one pointer field
+                    # (the layout with an unboxed variant)
+                    vs = [[] for _ in range(rng.range(0, 2))]
+                    vs.insert(rng.below(len(vs) + 1), [rng.pick(ptr_types)])
+                    self.defs.append(("E", vs))
+                    continue
+                nv = rng.range(1, 4) if rng.chance(1, 3) else rng.range(2, 4)
+                payload_first = rng.chance(2, 5) or nv == 1     # enums without a payload-free variant too
                 vs = []
                 for j in range(nv):
-                    k = 0 if j == 0 else rng.range(0, 2)
-                    fields = [self.pick_ty(t, allow_self=True) for _ in range(k)]
+                    if j == 0:
+                        k = rng.range(1, 2) if payload_first else 0
+                    else:
+                        k = rng.range(0, 2)
+                    # variant 0 must be finitely inhabited: no self reference there
+                    fields = [self.pick_ty(t, allow_self=(j > 0)) for _ in range(k)]
                     if fields == [t]:
                         # steer away from DESIGN P1 (C01's enum-layout defect: a single-field variant holding
                         # the enum itself is unboxed, `K1(K0)` and `K0` are the same run-time value)
@@ -513,10 +526,10 @@ def impl_match_answer(ans, nvals):
         return None, "checker " + str(ans.get("check"))
     if ans.get("nerr", 0) > 0:
         txt = ans.get("errors", "")
-        if "exhaustive" in txt.lower() and ans.get("nerr") == 1:
-            return "0", []
         if "collides with a previously defined name" in txt:
             return "dup", []
+        if "exhaustive" in txt.lower() and ans.get("nerr") == 1:
+            return "0", []
         return None, "unexpected diagnostics: " + txt[:200]
     if ans.get("compile") != "ok":
         return None, "compile " + str(ans.get("compile")) + " " + str(ans.get("msg", ""))[:120]
@@ -602,14 +615,14 @@ def check_matches(ctx, rng, n, stats, open_f):
         if isinstance(iends, tuple):
             # the two back ends took different arms
             _, w_ends, t_ends = iends
-            ts_faults = [e for e in t_ends if e == "fb" or e.startswith("ft")]
+            ts_faults = [e for e in t_ends + w_ends if e == "fb" or e.startswith("ft")]
             if acc == d.get("acc") and w_ends == mends and not ts_faults and "C18-F10" in open_f:
                 # wasm = model; TypeScript takes the arm of a payload-free variant for an unboxed
                 # single-field variant whose payload coerces (`[0] == 0`): C18-F10 (loose `==` tag test)
                 known_once(ctx, open_f["C18-F10"], f"generated match: wasm/model {w_ends}, TypeScript {t_ends}")
                 stats["known_hits"]["C18-F10"] = stats["known_hits"].get("C18-F10", 0) + 1
                 continue
-            ctx.violation(f"match: back ends disagree: wasm {w_ends} ts {t_ends} (model {mends})",
+            ctx.violation(("accepted match goes wrong on one back end: " if ts_faults else "match: back ends disagree: ") + f"wasm {w_ends} ts {t_ends} (model {mends})",
                           {"protocol": "match", "line": line, "program": prog, "answer": a, "model": m},
                           no_input=not ts_faults)
             if len(ctx.violations) > 3:
@@ -637,6 +650,42 @@ def check_matches(ctx, rng, n, stats, open_f):
                 if not e.endswith(":0"):
                     stats["match_bound_values"] = stats.get("match_bound_values", 0) + 1
 
+
+
+# ------------------------------------------------------------------ tie 4: enum layout + LIR type erasure (real specialisation vs Model/EnumRepr.lean)
+
+def layout_case(rng):
+    g = MatchGen(rng)
+    enums = [t for t, d in enumerate(g.defs) if d[0] == "E"]
+    probes = "".join(f"  function probe{t}(x: T{t}): int = {t}\n" for t in enums)
+    main = "".join(f"    let _ = Process.println(Str.fromInt(Main.probe{t}({g.val(t, 2)[0]})));\n" for t in enums)
+    src = g.decls() + "class Main {\n" + probes + "  function main(): unit = {\n" + main + "  }\n}\n"
+    return {"sources": {"Main": src}, "entry": "Main", "std": False}, "layout " + " ".join(g.enc_defs())
+
+
+def check_layouts(ctx, rng, n, stats, open_f):
+    cases = [layout_case(rng.fork()) for _ in range(n)]
+    impl = run_impl(["layout " + json.dumps(c[0]) for c in cases])
+    model = run_model([c[1] for c in cases])
+    progs = []
+    for (prog, line), a, m in zip(cases, impl, model):
+        stats["layout_cases"] = stats.get("layout_cases", 0) + 1
+        for part in m.split(" | ")[0].split(";"):
+            for k in part.split("=")[-1].split(","):
+                stats.setdefault("layout_hist", {})
+                stats["layout_hist"][k[:1]] = stats["layout_hist"].get(k[:1], 0) + 1
+        if a != m:
+            ctx.violation(f"enum layout / type erasure: real specialisation + LIR lowering give `{a}`, model `{m}`",
+                          {"protocol": "layout", "line": line, "program": prog, "impl": a, "model": m,
+                           "broken": "correspondence layout (Model/EnumRepr.lean layoutOf/needsAny vs mir_generics_specialization.rs + lir_lowering.rs): destructure_never_traps / variant_fits_erased_type no longer speak about this code"},
+                          no_input=True)
+            return
+        progs.append(dict(prog, run=True, ts=True, timeout_ms=8000))
+    # the same programs, end to end: no value may fail to fit its erased type at run time
+    for p, a in zip(progs, eval_programs(progs)):
+        stats["gate_lines"].append((a.get("nerr", -1), a.get("compile")))
+        if report(ctx, open_f, "generated enum-layout program (constructs and passes every enum)", p, a, stats, shrink=shrink_lines) and len(ctx.violations) > 3:
+            return
 
 # ------------------------------------------------------------------ oracle A: accepted mutants of tests/*.sam and std/*.sam
 
@@ -1173,18 +1222,19 @@ def run(ctx):
         ("corpus", lambda: run_corpus(ctx, stats, open_f)),
         ("kernels", lambda: check_kernels(ctx, rng.fork(), ctx.scale(3000, 60000), stats, open_f)),
         ("strings", lambda: check_strings(ctx, rng.fork(), ctx.scale(70, 1500), stats, open_f)),
+        ("layouts", lambda: check_layouts(ctx, rng.fork(), ctx.scale(60, 1500), stats, open_f)),
         ("matches", lambda: check_matches(ctx, rng.fork(), ctx.scale(120, 4000), stats, open_f)),
         ("multimodule", lambda: check_multimodule(ctx, rng.fork(), ctx.scale(12, 250), stats, open_f)),
         ("loops", lambda: check_loops(ctx, rng.fork(), ctx.scale(40, 800), stats, open_f)),
         ("generated", lambda: check_generated(ctx, rng.fork(), ctx.scale(40, 600), stats, open_f)),
-        ("mutants", lambda: check_mutants(ctx, rng.fork(), ctx.scale(320, 3000), stats, open_f)),
+        ("mutants", lambda: check_mutants(ctx, rng.fork(), ctx.scale(320, 6000), stats, open_f)),
         ("gate", lambda: check_gate(ctx, stats)),
     ]
     for name, f in steps:
         if len(ctx.violations) > 3:
             break
         f()
-    evaluations = (stats["kernel_lines"] + stats["str_cases"] + stats["match_cases"] + stats["mutants"] +
+    evaluations = (stats.get("layout_cases", 0) + stats["kernel_lines"] + stats["str_cases"] + stats["match_cases"] + stats["mutants"] +
                    stats["generated"] + stats["mm_bases"] + stats["mm_mutants"] + stats["corpus"] + stats.get("loop_programs", 0))
     nontrivial = (stats.get("loop_programs", 0) + stats["mutants_accepted"] + stats["generated_accepted"] + stats["mm_bases"] + stats["mm_mutants_accepted"] +
                   stats["match_acc"].get("1", 0) + stats["str_hist"].get("closed", 0))
@@ -1192,11 +1242,13 @@ def run(ctx):
     ctx.cov.update({
         "evaluations": evaluations, "distinct_nontrivial": nontrivial,
         "rule": "evaluations = kernel lines + string-literal programs + generated matches + sample/std mutants + generated programs + nested-loop programs + multi-module bases and cross-module mutants + corpus; non-trivial = programs the real checker ACCEPTED that were then compiled in-process, validated by wasmparser and executed on both back ends under Node (accepted mutants, generated programs, accepted matches, closed string literals)",
-        "samples": stats.pop("samples"), "traces_validated_against_impl": stats["kernel_lines"] + stats["str_cases"] + stats["match_cases"] + len(gl),
+        "samples": stats.pop("samples"), "traces_validated_against_impl": stats.get("layout_cases", 0) + stats["kernel_lines"] + stats["str_cases"] + stats["match_cases"] + len(gl),
         "stats": stats,
-        "pending": ["type soundness of the checker and well-typedness of wasm lowering are not proved (oracle only)",
-                    "lexAccepts raw -> escapes of content raw are {\\\\ \\t \\v \\0 \\b \\f \\n \\r}: exact characterisation of open literals (only witness + backslash-free partial proved)",
-                    "temporaries/freshness of lower_matching_pattern and Id-binding statements are outside Model/MatchLower.lean"]})
+        "pending": ["type soundness of the checker and well-typedness of the whole wasm lowering are not proved (oracle only); next kernels: LIR StructInit/IndexedAccess typing through local_variables, closure-context erasure + ref.cast on direct calls",
+                    "Model/EnumRepr.lean layoutOf is the closed form of the variant loop (tied by the layout stream), not a statement-by-statement mirror",
+                    "freshness of field-access temporaries / variable_cx scoping of lower_matching_pattern (binding temporaries are covered)",
+                    "merge_total (constant merger) lives in C02; C03 only ties 'never aborts'",
+                    "identifier-swap mutation sites are sampled (6000 of 19.7k per thorough run)"]})
     ctx.assumptions += ["Node >= 22 and wasmparser 0.252 (all proposals on) as validation/execution oracles",
                         "match tie: checker-resolved tag_order/field_order are computed by the generator the way main_checker.rs does (index of the name)"]
     return ctx.finish(res, trusted=common.TRUSTED_COMMON + [
